@@ -35,6 +35,9 @@ type SimSigner struct {
 	Kind  string // debsign | dpkg-sig | rpm | apk
 	Fault *SignerFault
 	Yield func(site string)
+	// Binary: the debsign signature is returned as binary OpenPGP packets
+	// (what gpg --detach-sign writes by default) instead of ASCII armor
+	Binary bool
 
 	Calls  [][]byte // bytes read from the reader, per call
 	Failed int      // calls answered with the sentinel
@@ -165,7 +168,11 @@ func (s *SimSigner) Fn() func(io.Reader) ([]byte, error) {
 		var out bytes.Buffer
 		switch s.Kind {
 		case "debsign":
-			err = openpgp.ArmoredDetachSign(&out, s.ent, bytes.NewReader(data), cfg)
+			if s.Binary {
+				err = openpgp.DetachSign(&out, s.ent, bytes.NewReader(data), cfg)
+			} else {
+				err = openpgp.ArmoredDetachSign(&out, s.ent, bytes.NewReader(data), cfg)
+			}
 		case "dpkg-sig":
 			var wc io.WriteCloser
 			wc, err = clearsign.Encode(&out, s.ent.PrivateKey, cfg)
